@@ -230,6 +230,8 @@
         &&& forall|k: int, n: int| 0 <= k < K && 0 <= n < 256 ==> #[trigger] sig_h(sig, gamma1, lam4, L as int, omega, k, n) == (if spec_make_hint(gamma2,
                 Q - cmul(cs, sk.t_0_hat_mont[k].0)[n],
                 sgn_w(a, ys, k)[n] - cmul(cs, sk.s_2_hat_mont[k].0)[n] + cmul(cs, sk.t_0_hat_mont[k].0)[n]) { 1int } else { 0int })
+        // line 28, second half: the hint has at most omega ones
+        &&& fn_count(sgn_hfn(a, sk, ys, cs, gamma2), 256 * K) <= omega
     }
     // ---- Tier 2: FIPS 204 Algorithm 6 (KeyGen_internal) over the key structs
     pub open spec fn vec_ints<const N: usize>(v: [R; N]) -> Seq<Seq<int>> { Seq::new(N as nat, |i: int| poly_ints(v[i].0)) }
@@ -614,7 +616,7 @@
     // the same attempt, stated over the signer's working variables (before encoding)
     #[verifier::opaque]
     pub open spec fn attempt_exec<const K: usize, const L: usize>(a: [[T; L]; K], sk: PrivateKey<K, L>, ys: Seq<Seq<int>>, c: R, c_tilde: Seq<u8>,
-            z: [R; L], h: [R; K], mu: Seq<u8>, beta: int, gamma1: int, gamma2: int, lam4: int) -> bool {
+            z: [R; L], h: [R; K], mu: Seq<u8>, beta: int, gamma1: int, gamma2: int, omega: int, lam4: int) -> bool {
         let cs = poly_ints(c.0);
         &&& forall|l: int, n: int| 0 <= l < L && 0 <= n < 256 ==> cong(#[trigger] z[l].0[n] as int, ys[l][n] + cmul(cs, sk.s_1_hat_mont[l].0)[n])
         &&& forall|l: int, n: int| 0 <= l < L && 0 <= n < 256 ==> in_red_dom(#[trigger] z[l].0[n] as int) && spec_abs(mod_pm(z[l].0[n] as int, Q as int)) < gamma1 - beta
@@ -625,6 +627,7 @@
                 Q - cmul(cs, sk.t_0_hat_mont[k].0)[n],
                 sgn_w(a, ys, k)[n] - cmul(cs, sk.s_2_hat_mont[k].0)[n] + cmul(cs, sk.t_0_hat_mont[k].0)[n]) { 1int } else { 0int })
         &&& exists|w1b: Seq<u8>| #[trigger] w1_fields_ok(w1b, gamma2, K as int, sgn_w1fn(a, ys, gamma2)) && c_tilde == stream_take(shake256(mu + w1b), 0, lam4)
+        &&& fn_count(sgn_hfn(a, sk, ys, cs, gamma2), 256 * K) <= omega
     }
     // ---- the signer's working variables in terms of the specification values (each line is a closure contract of sign_internal);
     // kept opaque in the signing loop so that the gate reasoning happens in the lemmas below, not in the loop's own query
@@ -682,15 +685,16 @@
     }
     // both gates passed: the working variables are an accepted attempt
     pub proof fn lemma_attempt_intro<const K: usize, const L: usize>(a: [[T; L]; K], sk: PrivateKey<K, L>, ys: Seq<Seq<int>>, c: R, c_tilde: Seq<u8>, w1b: Seq<u8>,
-            z: [R; L], r0: [R; K], c_t_0: [R; K], h: [R; K], z_norm: i32, r0_norm: i32, v: i32, mu: Seq<u8>, beta: int, gamma1: int, gamma2: int, lam4: int)
-        requires sgn_vars1(a, sk, ys, poly_ints(c.0), gamma2, z, r0), sgn_vars2(a, sk, ys, poly_ints(c.0), gamma2, c_t_0, h),
+            z: [R; L], r0: [R; K], c_t_0: [R; K], h: [R; K], z_norm: i32, r0_norm: i32, v: i32, mu: Seq<u8>, beta: int, gamma1: int, gamma2: int, omega: int, lam4: int)
+        requires sgn_vars1(a, sk, ys, poly_ints(c.0), gamma2, z, r0), sgn_vars2(a, sk, ys, poly_ints(c.0), gamma2, c_t_0, h), 1 <= K <= 8, hint_count(h@, 256 * K) <= omega,
             inf_norm_is(z, z_norm), inf_norm_is(r0, r0_norm), inf_norm_is(c_t_0, v), 0 < gamma2 < 4_000_000,
             z_norm < gamma1 - beta, r0_norm < gamma2 - beta, v < gamma2,
             w1_fields_ok(w1b, gamma2, K as int, sgn_w1fn(a, ys, gamma2)), c_tilde == stream_take(shake256(mu + w1b), 0, lam4),
-        ensures attempt_exec(a, sk, ys, c, c_tilde, z, h, mu, beta, gamma1, gamma2, lam4),
+        ensures attempt_exec(a, sk, ys, c, c_tilde, z, h, mu, beta, gamma1, gamma2, omega, lam4),
     {
         reveal(sgn_vars1); reveal(sgn_vars2); reveal(inf_norm_is); reveal(attempt_exec);
         let cs = poly_ints(c.0);
+        lemma_fn_count(h, sgn_hfn(a, sk, ys, cs, gamma2), 256 * K as int);
         assert forall|k: int, n: int| 0 <= k < K && 0 <= n < 256 implies
             spec_abs(spec_low_bits(gamma2, #[trigger] sgn_w(a, ys, k)[n] - cmul(cs, sk.s_2_hat_mont[k].0)[n])) < gamma2 - beta by {
             let rv = r0[k].0[n] as int;
@@ -748,7 +752,7 @@
         requires
             gamma1_ok(gamma1), gamma2_ok(gamma2), 1 <= K <= 8, 1 <= L <= 8, 0 <= lam4 <= 64, kappa >= 0, kappa % (L as int) == 0,
             expand_a_rel(sk.rho@, a), sib_rel(tau, shake256(c_tilde), c), c_small(c, tau), rhopp == sign_rhopp(sk.cap_k@, rnd, mu),
-            attempt_exec(a, sk, mask_ys(rhopp, kappa, gamma1, L as int), c, c_tilde, z, h, mu, beta, gamma1, gamma2, lam4),
+            attempt_exec(a, sk, mask_ys(rhopp, kappa, gamma1, L as int), c, c_tilde, z, h, mu, beta, gamma1, gamma2, omega, lam4),
             all_rejected_before(a, sk, mu, rhopp, kappa, beta, gamma1, gamma2, omega, tau, lam4),
             forall|l: int, n: int| 0 <= l < L && 0 <= n < 256 ==> #[trigger] zmodq[l].0[n] as int == mod_pm(z[l].0[n] as int, Q as int),
             sig.subrange(0, lam4) == c_tilde,
